@@ -22,6 +22,10 @@
 //        hidden-state path sampling: histories of setTransitionProbabilities / parameter updates / getters /
 //        sample(n) on Full and AutoCorrelation transition matrices with 1..4 states (zero entries included);
 //        the uniforms are read by re-seeding, the current weights from a twin object
+//   drv_random --out F --mode dist --n N
+//        histories of distribution objects: build, draw, change a parameter through the parameter interface,
+//        restrict, clone / assign, draw from either side; each draw is compared with a reference object built
+//        afresh from the current parameters and restriction
 //
 // The driver only produces and encodes observations; nothing is judged here.
 #include "tracer.h"
@@ -1101,6 +1105,174 @@ static long hmmPaths(Rng& rng, long n, const std::vector<uint64_t>& seeds)
   return sc;
 }
 
+// ---------------------------------------------------------------- distribution histories
+struct DistObj
+{
+  std::unique_ptr<bpp::DiscreteDistributionInterface> d;
+  std::vector<double> par;             // current parameter values, in constructor order
+  bool restricted = false;
+  double lo = 0, hi = 0;               // the restriction asked for
+};
+
+static bpp::DiscreteDistributionInterface* buildDist(const std::string& cls, const std::vector<double>& p)
+{
+  if (cls == "exp") return new bpp::ExponentialDiscreteDistribution(3, p[0]);
+  if (cls == "texp") return new bpp::TruncatedExponentialDiscreteDistribution(3, p[0], p[1]);
+  if (cls == "gauss") return new bpp::GaussianDiscreteDistribution(3, p[0], p[1]);
+  if (cls == "gamma") return new bpp::GammaDiscreteDistribution(3, p[0], p[1]);
+  return new bpp::BetaDiscreteDistribution(3, p[0], p[1]);
+}
+static std::vector<std::string> parNames(const std::string& cls)
+{
+  if (cls == "exp") return {"lambda"};
+  if (cls == "texp") return {"lambda", "tp"};
+  if (cls == "gauss") return {"mu", "sigma"};
+  return {"alpha", "beta"};
+}
+
+static long distHistories(Rng& rng, long n, const std::vector<uint64_t>& seeds)
+{
+  long sc = 0;
+  static const char* classes[] = {"exp", "texp", "gauss", "gamma", "beta"};
+  static const double vals[] = {0.25, 0.5, 1., 2., 4.};
+  for (long it = 0; it < n; ++it)
+  {
+    reset();
+    ++sc;
+    std::string cls = classes[rng.below(5)];
+    std::vector<std::string> names = parNames(cls);
+    DistObj slot[2];
+    auto pickPar = [&]() {
+      std::vector<double> p;
+      for (size_t i = 0; i < names.size(); ++i) p.push_back(vals[rng.below(5)]);
+      if (cls == "texp") p[1] = 8. / p[0] * (rng.coin() ? 1. : 2.);
+      if (cls == "gauss") p[0] = p[0] - 1.;
+      return p;
+    };
+    auto reference = [&](const DistObj& o) {
+      std::unique_ptr<bpp::DiscreteDistributionInterface> r(buildDist(cls, o.par));
+      if (o.restricted)
+      {
+        bpp::IntervalConstraint ic(o.lo, o.hi, true, true);
+        r->restrictToConstraint(ic);
+      }
+      return r;
+    };
+    auto create = [&](int o) {
+      slot[o].par = pickPar();
+      slot[o].restricted = false;
+      std::string r = outcome<bpp::Exception>([&]() { slot[o].d.reset(buildDist(cls, slot[o].par)); });
+      tracer().emit(Obj().kv("e", "New").kv("o", o).kv("cls", cls).kv("r", r));
+    };
+    auto draw = [&](int o) {
+      DistObj& h = slot[o];
+      uint64_t sd = seeds[rng.below(seeds.size())];
+      bool sameC = true, sameD = true, domC = true, domD = true;
+      std::string r = outcome<bpp::Exception>([&]() {
+        std::unique_ptr<bpp::DiscreteDistributionInterface> ref = reference(h);
+        std::vector<double> a, b, c, e;
+        quietSeed(sd);
+        for (int k = 0; k < 3; ++k) a.push_back(h.d->randC());
+        for (int k = 0; k < 3; ++k) c.push_back(h.d->rand());
+        quietSeed(sd);
+        for (int k = 0; k < 3; ++k) b.push_back(ref->randC());
+        for (int k = 0; k < 3; ++k) e.push_back(ref->rand());
+        double lo = h.d->getLowerBound(), hi = h.d->getUpperBound();
+        for (int k = 0; k < 3; ++k)
+        {
+          sameC = sameC && a[k] == b[k];
+          sameD = sameD && c[k] == e[k];
+          domC = domC && a[k] >= lo && a[k] <= hi;
+          domD = domD && c[k] >= lo && c[k] <= hi;
+        }
+      });
+      Obj ev;
+      ev.kv("e", "Draw").kv("o", o).kv("seed", static_cast<long long>(sd)).kv("sameC", r == "ok" && sameC).kv("sameD", r == "ok" && sameD).kv("domC", r == "ok" && domC).kv("domD", r == "ok" && domD);
+      if (r != "ok") ev.kv("raised", r);
+      tracer().emit(ev);
+    };
+    auto setPar = [&](int o) {
+      DistObj& h = slot[o];
+      size_t i = rng.below(names.size());
+      if (cls == "texp") i = 0; // tp is tied to the domain
+      double v = vals[rng.below(5)];
+      if (cls == "gauss" && i == 0) v = h.par[0] + (rng.coin() ? 0.25 : -0.25) * h.par[1];
+      else if (h.restricted) v = h.par[i] * (rng.coin() ? 2. : 0.5); // keep some mass inside the restriction
+      if (cls != "gauss" || i != 0)
+        if (v < 0.125 || v > 8.) v = h.par[i];
+      size_t how = rng.below(3);
+      static const char* hows[] = {"setParameterValue", "matchParametersValues", "setParametersValues"};
+      std::string r = outcome<bpp::Exception>([&]() {
+        if (how == 0) h.d->setParameterValue(names[i], v);
+        else
+        {
+          bpp::ParameterList pl;
+          std::string full = h.d->getNamespace() + names[i];
+          pl.addParameter(bpp::Parameter(full, v));
+          if (how == 1) h.d->matchParametersValues(pl);
+          else h.d->setParametersValues(pl);
+        }
+      });
+      if (r == "ok") h.par[i] = v;
+      tracer().emit(Obj().kv("e", "SetPar").kv("o", o).kv("how", hows[how]).kv("r", r));
+    };
+    auto restrict = [&](int o) {
+      DistObj& h = slot[o];
+      if (h.restricted) return; // one restriction per object
+      double lo = 0, hi = 0;
+      std::string r = outcome<bpp::Exception>([&]() {
+        std::unique_ptr<bpp::DiscreteDistributionInterface> u(buildDist(cls, h.par));
+        lo = u->qProb(0.1 * static_cast<double>(1 + rng.below(3)));
+        hi = cls == "texp" ? h.par[1] : u->qProb(0.1 * static_cast<double>(7 + rng.below(3)));
+        bpp::IntervalConstraint ic(lo, hi, true, true);
+        h.d->restrictToConstraint(ic);
+      });
+      if (r == "ok")
+      {
+        h.restricted = true;
+        h.lo = lo;
+        h.hi = hi;
+      }
+      tracer().emit(Obj().kv("e", "Restrict").kv("o", o).kv("r", r));
+    };
+    auto copyTo = [&](int src, int dst) {
+      bool assign = static_cast<bool>(slot[dst].d);
+      std::string r = outcome<bpp::Exception>([&]() {
+        if (!assign) slot[dst].d.reset(dynamic_cast<bpp::DiscreteDistributionInterface*>(slot[src].d->clone()));
+        else if (cls == "exp") *dynamic_cast<bpp::ExponentialDiscreteDistribution*>(slot[dst].d.get()) = *dynamic_cast<bpp::ExponentialDiscreteDistribution*>(slot[src].d.get());
+        else if (cls == "texp") *dynamic_cast<bpp::TruncatedExponentialDiscreteDistribution*>(slot[dst].d.get()) = *dynamic_cast<bpp::TruncatedExponentialDiscreteDistribution*>(slot[src].d.get());
+        else if (cls == "gauss") *dynamic_cast<bpp::GaussianDiscreteDistribution*>(slot[dst].d.get()) = *dynamic_cast<bpp::GaussianDiscreteDistribution*>(slot[src].d.get());
+        else if (cls == "gamma") *dynamic_cast<bpp::GammaDiscreteDistribution*>(slot[dst].d.get()) = *dynamic_cast<bpp::GammaDiscreteDistribution*>(slot[src].d.get());
+        else *dynamic_cast<bpp::BetaDiscreteDistribution*>(slot[dst].d.get()) = *dynamic_cast<bpp::BetaDiscreteDistribution*>(slot[src].d.get());
+      });
+      slot[dst].par = slot[src].par;
+      slot[dst].restricted = slot[src].restricted;
+      slot[dst].lo = slot[src].lo;
+      slot[dst].hi = slot[src].hi;
+      Obj e;
+      e.kv("e", "CopyTo").kv("o", src).kv("o2", dst).kv("how", assign ? "assign" : "clone");
+      if (r != "ok") e.kv("raised", r);
+      tracer().emit(e);
+    };
+
+    create(0);
+    if (!slot[0].d) continue;
+    long ops = 5 + static_cast<long>(rng.below(8));
+    for (long k = 0; k < ops; ++k)
+    {
+      size_t what = rng.below(12);
+      int o = (slot[1].d && rng.coin()) ? 1 : 0;
+      if (what < 3) setPar(o);
+      else if (what < 5) restrict(o);
+      else if (what < 7) copyTo(o, 1 - o);
+      else draw(o);
+    }
+    draw(0);
+    if (slot[1].d) draw(1);
+  }
+  return sc;
+}
+
 int main(int argc, char** argv)
 {
   std::string out = argStr(argc, argv, "--out", "");
@@ -1128,6 +1300,7 @@ int main(int argc, char** argv)
   else if (mode == "sampling-rand") sc = samplingRand(rng, n, seeds);
   else if (mode == "laws") sc = laws(rng, seeds);
   else if (mode == "hmm") sc = hmmPaths(rng, n, seeds);
+  else if (mode == "dist") sc = distHistories(rng, n, seeds);
   else
   {
     fprintf(stderr, "drv_random: unknown mode\n");
